@@ -81,6 +81,7 @@ type CheckRun struct {
 	rep      *Replayer
 	extraObl []Obligation
 	lines    []string
+	skipped  []string
 }
 
 type Obligation struct {
@@ -440,6 +441,30 @@ func checkMain(args []string) int {
 		}
 		items = f
 	}
+	// partitions that are known not to finish within the quick limits run in the thorough tier only
+	var skipped []string
+	if tier == 0 {
+		var qs struct {
+			Skip []string `json:"skip"`
+		}
+		if b, err := os.ReadFile(filepath.Join(verifDir, "quick_skip.json")); err == nil {
+			json.Unmarshal(b, &qs)
+		}
+		sk := map[string]bool{}
+		for _, x := range qs.Skip {
+			sk[x] = true
+		}
+		var f []Item
+		for _, it := range items {
+			if sk[fmt.Sprintf("%s#%d", it.Fn, it.Part)] {
+				skipped = append(skipped, fmt.Sprintf("%s#%d", it.Fn, it.Part))
+				continue
+			}
+			f = append(f, it)
+		}
+		items = f
+	}
+	c.skipped = skipped
 	if len(items) == 0 {
 		fmt.Fprintln(os.Stderr, "BROKEN: no harness functions for", id)
 		return 3
@@ -693,7 +718,7 @@ func (c *CheckRun) finish(t0 time.Time) int {
 		"bounds": c.def.Bounds, "paths": paths, "harness_runs": perHarness,
 		"queries": map[string]int{"total": queries, "sat": sat, "unsat": unsat, "unknown": unknown}, "solver_s": round3(solverS),
 		"reachability_witnesses": reachWitness, "inconclusive": inconclusive, "broken": broken, "known_findings_matched": knownHit,
-		"extra_obligations": c.extraObl, "replay_build_s": round3(c.rep.BuildS),
+		"extra_obligations": c.extraObl, "skipped_in_quick": c.skipped, "replay_build_s": round3(c.rep.BuildS),
 		"encoding": "regenerated from /repo's working tree on this run (go/packages + go/ssa with harness overlay)",
 	}
 	ev := map[string]interface{}{"property_id": id, "tier": tierName(c.tier), "seed": c.seed, "level": c.def.Level, "coverage": cov,
